@@ -76,13 +76,17 @@ func c18ErrName(err error) string {
 }
 
 type c18FailReader struct {
-	r   io.Reader
-	err error
+	r      io.Reader
+	err    error
+	onFail func()
 }
 
 func (f *c18FailReader) Read(p []byte) (int, error) {
 	n, err := f.r.Read(p)
 	if err == io.EOF {
+		if f.onFail != nil {
+			f.onFail()
+		}
 		return n, f.err
 	}
 	return n, err
